@@ -380,7 +380,13 @@ func c13CLI(c *Ctx, n int) error {
 		}{"stdout-devfull", func(s *SchedConfig) {}}, struct {
 			name string
 			f    func(*SchedConfig)
-		}{"rerun-after-edit", func(s *SchedConfig) {}})
+		}{"rerun-after-edit", func(s *SchedConfig) {}}, struct {
+			name string
+			f    func(*SchedConfig)
+		}{"transient-io-fault", func(s *SchedConfig) {}}, struct {
+			name string
+			f    func(*SchedConfig)
+		}{"transient-io-fault", func(s *SchedConfig) {}})
 		for k, cf := range cfgs {
 			cfg := s0()
 			cfg.Seed = SubSeed(seed, cf.name, k)
@@ -411,6 +417,27 @@ func c13CLI(c *Ctx, n int) error {
 				wi.Pre = []PreStep{{Argv: argv, After: []DiskEntry{{Path: "in.dsl", Kind: "file", Data: []byte(text), MtimeUnix: stamp}}}}
 				c.ev.Fire("rerun_over_durable_state", 1)
 			}
+			if cf.name == "transient-io-fault" {
+				// one write-class file operation (create, mkdir, open for
+				// writing, rename ...) fails ONCE with a retryable error; every
+				// later operation succeeds. A run that then reports failure
+				// promises nothing; a run that still exits 0 has "compiled" and
+				// must have produced the very same tree.
+				nw := 0
+				for _, op := range o0.Rec.Ops {
+					if op.Write {
+						nw++
+					}
+				}
+				if nw == 0 {
+					continue
+				}
+				wi.Sched.FaultOpIndex = 1 + r.Intn(nw)
+				if r.Chance(1, 3) {
+					wi.Sched.FaultOpIndex = 1 + r.Intn(min(nw, 3)) // early: right at a target's first directory / file
+				}
+				wi.Sched.FaultErrno = r.Pick([]string{"EIO", "ENOSPC", "EACCES", "EMFILE", "EDQUOT"})
+			}
 			if cf.name == "stdout-devfull" {
 				// the same command with a standard output on which every write fails
 				wi.StdoutKind = "devfull"
@@ -437,6 +464,13 @@ func c13CLI(c *Ctx, n int) error {
 			c.ev.AddRecord(&oi.Rec)
 			c.ev.Count("cli_worlds", 1)
 			c.event(fmt.Sprintf("c13cli|%d|%d", i, k), oi.Rec.Choices, treeSig(oi, ""), opSig(oi))
+			if cf.name == "transient-io-fault" {
+				if oi.Exit != 0 || o0.Exit != 0 {
+					c.ev.Count("transient_fault_runs_that_reported_failure", 1)
+					continue
+				}
+				c.ev.Count("transient_fault_runs_that_exited_0", 1)
+			}
 			if sig, non := choiceSig(oi.Rec.Choices); non {
 				c.ev.MarkDistinct(fmt.Sprintf("cli|%x|%s", seed, sig))
 			}
@@ -518,6 +552,9 @@ func (c *Ctx) candidate13CLI(caseIdx int, prog *Prog, w0, wi *CLIWorld, sname, t
 	if !ok {
 		c.ev.Count("unconfirmed_candidates", 1)
 		c.logf("CLI candidate (case %d, %s, %s) did not reproduce: not reported", caseIdx, sname, target)
+		c.mu.Lock()
+		delete(c.sigSeen, "coarse:"+coarse)
+		c.mu.Unlock()
 		return
 	}
 	small, used := ShrinkProg(prog, func(p *Prog) bool { ok, _, _, _ := fails(p); return ok }, 80)
